@@ -198,6 +198,46 @@ def par_assign() -> Dict[str, Any]:
     return dict(cfg=cfg, events=["E", "X", "Z"])
 
 
+def _expander(kind: str, bound: int):
+    """Entry of `loop` expands into (assign k+1, marker, the same expansion again) while k < bound; bound=None never
+    stops by itself and is cut by the engine's expansion-depth guard - at the same point on every engine."""
+    def more(ctx):
+        return bound is None or ctx.get("k", 0) < bound
+
+    def bump(args):
+        return {"k": args["context"].get("k", 0) + 1}
+
+    def again(args):
+        return [A.assign(bump), "mk:step", nested()] if more(args["context"]) else []
+
+    def enq(args):
+        if more(args["context"]):
+            args["enqueue"].assign(bump)
+            args["enqueue"]("mk:step")
+            args["enqueue"](nested())
+
+    def nested():
+        if kind == "pure":
+            return A.pure(again)
+        if kind == "choose":
+            return A.choose([{"guard": "more", "actions": [A.assign(bump), "mk:step", A.pure(lambda a: [nested()])]}])
+        return A.enqueue_actions(enq)
+
+    def build() -> Dict[str, Any]:
+        cfg = {
+            "id": "m", "initial": "idle", "context": {"k": 0},
+            "states": {
+                "idle": {"on": {"GO": "loop"}},
+                "loop": {"entry": ["mk:en_loop", nested(), "mk:en_loop_last"],
+                         "on": {"BACK": {"target": "idle", "actions": [A.assign({"k": 0})]}, "AGAIN": {"actions": [A.assign({"k": 0}), nested()]}}},
+            },
+        }
+        return dict(cfg=cfg, events=["GO", "BACK", "AGAIN"], guards={"more": lambda ctx, ev, params=None: more(ctx)},
+                    markers=["mk:step"])
+
+    return build
+
+
 _ALL = {
     "counter": counter,
     "raiser": raiser,
@@ -206,6 +246,9 @@ _ALL = {
     "services": services,
     "par_assign": par_assign,
 }
+for _k in ("pure", "choose", "enqueue"):
+    _ALL[f"expand_{_k}_3"] = _expander(_k, 3)
+    _ALL[f"expand_{_k}_inf"] = _expander(_k, None)
 
 
 def names() -> List[str]:
